@@ -37,9 +37,12 @@ def scenario(ctx, i):
             s["s"][0] = 0.0
     T = r.normal(size=(C, D, R))
     sigma = v * r.uniform(0.5, 2, (C, D))
+    floor = float(10 ** r.uniform(-10, -2)) if kind != "floor" else 1e-3
+    if kind == "zero_in_all" and C > 1 and r.random() < 0.6:
+        sigma[0] = floor * r.uniform(0.05, 0.9, D)  # a never-observed component that starts below the floor (fit() starts from the unfloored UBM variances)
     parts = gen.random_composition(r, ns)
     return dict(kind=kind, C=C, D=D, R=R, w=w, m=m, v=v, T=T, sigma=sigma, sts=sts, parts=parts, update_sigma=True if kind == "floor" else bool((i // 4 + i) % 2 == 0),
-                floor=float(10 ** r.uniform(-10, -2)) if kind != "floor" else 1e-3, iters=int(r.integers(1, 4)), seed=int(r.integers(0, 10**6)))
+                floor=floor, iters=int(r.integers(1, 4)), seed=int(r.integers(0, 10**6)))
 
 
 def mk_stats(sc, s):
@@ -163,7 +166,7 @@ def oracle(sc, iters=4):
     for k in range(iters):
         if not (np.all(np.isfinite(iv.T)) and np.all(np.isfinite(iv.sigma))):
             return {"sig": "non-finite-ivector-parameters", "what": f"after {k} iteration(s): sigma {np.asarray(iv.sigma).tolist()}", "iteration": k}
-        if np.any(np.asarray(iv.sigma) < sc["floor"]) and k > 0:
+        if sc["update_sigma"] and np.any(np.asarray(iv.sigma) < sc["floor"]) and k > 0:  # the floor is a promise about *updated* covariances
             return {"sig": "sigma-below-floor", "what": f"iteration {k}: {np.asarray(iv.sigma).tolist()} floor {sc['floor']}"}
         if np.all(np.asarray(iv.sigma) >= sc["floor"]):
             traj.append(marginal(sc, np.asarray(iv.T, float), np.asarray(iv.sigma, float)))
